@@ -43,7 +43,18 @@ ASSUMPTIONS = [
 ALPHABET = ["a", "b", " ", "\t", "\n", "\n", "\r\n", "\r\n", "\r", "\v", "\f", " ", "\u2028", "x y", "  ", "\n\n", "\r\n\r\n", "é"]
 # characters str.splitlines() (and universal-newline readers) treat as line boundaries but that are NOT terminators here:
 # inside a line they are content (whitespace for Trim when trailing), and they never end a line for the limiter
-EXOTIC = ["\x1c", "\x1d", "\x1e", "\x85", "\u2028", "\u2029", "\v", "\f", "\r", "\xa0", "\u3000", "\u200b", "\x1f", "\u2003"]
+EXOTIC = ["\x1c", "\x1d", "\x1e", "\x85", "\u2028", "\u2029", "\v", "\f", "\r", "\xa0", "\u3000", "\u200b", "\x1f", "\u2003", "\x00", "\ufeff"]
+# size classes: lines longer than any buffer a writer might keep (4 KiB, 8 KiB, 64 KiB), thousands of lines in one chunk
+BIG_TEXTS = [
+    "head\nsecond \n" + "x" * 4096 + "\ntail\n",
+    "a\n" + "y" * 4095 + "\n" + "z" * 4097 + " \n\n\nend",
+    "a\nb \n" + "y " * 2500 + "\n\n\nz",
+    "l \n" * 6000,
+    "\r\n" * 3000 + "end",
+    "q" * 70000,
+    "s\n" + " " * 8200 + "\n" + "t\r\n" + "w" * 8192 + "\r\n\r\n\r\nu",
+    "".join("line %d%s" % (i, "\r\n" if i % 3 == 0 else "\n") + ("\n" * (i % 5 == 0)) for i in range(3000)),
+]
 SMALL = ["a", " ", "\n", "\r"]
 PROC_LISTS = [[]] + [[["trim"]]] + [[["limit", n]] for n in range(4)] + [[["limit", n], ["trim"]] for n in range(3)] + [[["trim"], ["limit", n]] for n in range(3)]
 # user-supplied processors next to the built-in ones (the documented extension point): "num" numbers every line it is
@@ -75,6 +86,7 @@ def directed_cases(seed: int, tier: str) -> typing.List[dict]:
         out.append({"label": "exhaustive-%r" % first, "mode": "exhaustive", "first": first, "max_len": max_len})
     for k, (f, w, pl) in enumerate([(0, 2, [["limit", 1]]), (1, 9, [["limit", 1]]), (0, 3, [["trim"], ["limit", 0]]), (1, 5, [["limit", 2], ["trim"]]), (0, 11, [["limit", 1]])]):
         out.append({"label": "directed-retry-%d" % k, "mode": "retry", "dsdl_seed": [seed, PROP, "directed", 0], "fault": {"file": f, "write": w}, "procs": pl, "templates": "blanky"})
+    out.append({"label": "directed-big-texts", "mode": "big"})
     out.append({"label": "directed-copy-header", "mode": "copy", "texts": ["a  \r\nb\r\nlast", "a \nb\n", "x", "", "\n", "a\r\n", "l1\nl2  ", "\r\n\r\n\r\n\r\nq", "a\u2028b \n\x85\nc\x1cd\n", "p\x0bq\x0c\r\nr\x1d\x1es"]})
     for li, (lang, tpl, flags) in enumerate([("c", None, {}), ("c", "crlf", {}), ("py", None, {}), ("cpp", "blanky", {"pp_max_empty": 1}), ("py", "crlf", {}), ("c", "blanky", {}), ("py", "blanky", {"pp_trim": True}), ("cpp", "blanky", {"pp_max_empty": 2, "pp_trim": True}), ("c", "blanky", {"pp_max_empty": 3})]):
         out.append({"label": "directed-system-%s-%s-%d" % (lang, tpl, li), "mode": "system", "dsdl_seed": [seed, PROP, "directed", li % 2], "lang": lang, "templates": tpl, "flags": flags})
@@ -413,6 +425,21 @@ def run_case(case: dict, ctx: dict) -> dict:
             if sample is None and cuts and "\n" in text:
                 sample = {"text": text, "cuts": cuts, "procs": procs}
         bump("ops", "seeded-units", case["n"])
+    elif mode == "big":
+        rb = Rng(PROP, "big")
+        for ti, text in enumerate(BIG_TEXTS):
+            L = len(text)
+            cut_sets = [[], [L // 2], list(range(1000, L, 1000)), [1], [L - 1], sorted(rb.sub(ti, "c").below(L + 1) for _ in range(12)), list(range(4096, L, 4096)), [i + 1 for i in range(L - 1) if text[i : i + 2] == "\r\n"][:200]]
+            for cuts in cut_sets:
+                for procs in PROC_LISTS:
+                    one_unit(text, cuts, procs)
+            if ti < 5:
+                for procs in PROC_LISTS[1:6]:
+                    evaluations += 1
+                    record(check_copy(text, procs, ctx["scratch"]), {"copy": True, "text": text, "procs": procs})
+        bump("ops", "big-texts", len(BIG_TEXTS))
+        bump("probes", "line_longer_than_64KiB")
+        bump("probes", "thousands_of_lines_in_one_chunk")
     elif mode == "copy":
         if "texts" in case:
             texts = list(case["texts"])
